@@ -22,7 +22,9 @@
 // after the hub's history ring has long moved past them).  Added after seeded change C16-11:
 // streams luagate and luafree (luascript.go): the listener is a real Lua script with both
 // after-hooks, loaded by luahost on the same extension host, held inside a hook on a gate channel
-// (or doing seeded work) while the messages it is being told about are removed.
+// (or doing seeded work) while the messages it is being told about are removed.  Added after seeded
+// change C16-13: flood rounds in a few luagate histories (luascript.go) - 1500-4000 stored and
+// deleted events pile up behind the held script before the gate opens.
 package c16
 
 import (
@@ -79,6 +81,8 @@ func init() {
 			"streams luagate / luafree = a real Lua script (luahost.NewFromReader on the extension host of manager + store, mem/file x cap{0,1,2,3,5} x GOMAXPROCS{1,2,4,16}) that defines both after-hooks " +
 			"and reports enter/leave with kind, mailbox, id on a Go<->Lua channel; one sequential client; luagate: 3-7 rounds in which the script is held inside its stored hook (or its deleted hook) on a gate channel " +
 			"while the held message is removed / the mailbox purged / deliveries evict past the cap / another mailbox gets a delivery and a removal, then the gate opens; " +
+			"in every 26th luagate history (memory store, cap 0-3, GOMAXPROCS 1/2/4/16) one round is a flood round: while the script is held 800-2000 small messages are delivered to one further mailbox and purged / evicted by the cap, " +
+			"1500-4000 events waiting for the one held listener; " +
 			"luafree: 15-35 bursts of 1-8 deliveries with seeded hook work (0-4000 Lua loop iterations) followed at once by purge / removal of each / of the newest / of the oldest; " +
 			"judged on the script's reports: no hook entered before the previous invocation of the script has left, every message stored exactly once and - if it left - deleted exactly once, stored before deleted, per-mailbox delivery order. " +
 			"seq histories on the file back end also damage the content file of a listed message behind the store's back (removed, or replaced by a non-empty directory that cannot be unlinked) and then " +
@@ -149,6 +153,11 @@ func init() {
 				"luafree_bursts_followed_at_once_by_removal": 500, "max_lua_states_in_one_history": 1} {
 				m[n] = v
 			}
+			// flood rounds of luagate (healthy quick run: 4 histories, each with 1 600 - 4 000 events emitted
+			// while the script is held, none of them handed over before the gate opens)
+			m["luagate_flood_rounds"] = 3
+			m["luagate_flood_events_emitted_while_script_held"] = 4500
+			m["max_luagate_flood_events_pending_when_gate_opened"] = 1500
 			for _, k := range configs {
 				m["config:"+k.String()] = 5
 			}
